@@ -138,8 +138,18 @@ func reuseSequence(c *core.Ctx, k *core.Case, exact bool) {
 			return
 		}
 		if _, _, obj := bodyPointers(rx); obj != nil {
+			// what a caller keeps of a result: the body, the family container it hangs in
+			// (exported pointers rx.GmmMessage / rx.GsmMessage), or a value copy of the Message
+			kept := *rx
+			earlier = append(earlier, held{&kept, fingerprint(reflect.ValueOf(&kept)), i, d.Name + " (value copy of the Message)"})
+			if rx.GmmMessage != nil {
+				earlier = append(earlier, held{rx.GmmMessage, fingerprint(reflect.ValueOf(rx.GmmMessage)), i, d.Name + " (GmmMessage pointer)"})
+			}
+			if rx.GsmMessage != nil {
+				earlier = append(earlier, held{rx.GsmMessage, fingerprint(reflect.ValueOf(rx.GsmMessage)), i, d.Name + " (GsmMessage pointer)"})
+			}
 			earlier = append(earlier, held{obj, fingerprint(reflect.ValueOf(obj)), i, d.Name})
-			if len(earlier) > 4 {
+			for len(earlier) > 9 {
 				earlier = earlier[1:]
 			}
 		}
